@@ -59,26 +59,26 @@ pub(crate) struct EntityReactionAccessTracker
     reaction_type: EntityReactionType,
 
     /// Reaction information cached for when the reaction system actually runs.
-    prepared: Vec<(SystemCommand, Entity, EntityReactionType)>,
+    prepared: Vec<(u64, SystemCommand, Entity, EntityReactionType)>,
 }
 
 impl EntityReactionAccessTracker
 {
     /// Caches metadata for an entity reaction.
-    pub(crate) fn prepare(&mut self, system: SystemCommand, source: Entity, reaction: EntityReactionType)
+    pub(crate) fn prepare(&mut self, ticket: u64, system: SystemCommand, source: Entity, reaction: EntityReactionType)
     {
-        self.prepared.push((system, source, reaction));
+        self.prepared.push((ticket, system, source, reaction));
     }
 
     /// Sets metadata for the current entity reaction.
-    pub(crate) fn start(&mut self, reactor: SystemCommand)
+    pub(crate) fn start(&mut self, reactor: SystemCommand, ticket: u64)
     {
-        let Some(pos) = self.prepared.iter().position(|(s, _, _)| *s == reactor) else {
+        let Some(pos) = self.prepared.iter().position(|(t, s, _, _)| *t == ticket && *s == reactor) else {
             tracing::error!("prepared entity reaction is missing {:?}", reactor);
             debug_assert!(false);
             return;
         };
-        let (system, source, reaction) = self.prepared.swap_remove(pos);
+        let (_, system, source, reaction) = self.prepared.swap_remove(pos);
 
         debug_assert!(!self.currently_reacting);
         self.currently_reacting = true;
